@@ -247,7 +247,7 @@ def run_q8(chk, repo, dm):
                                   'the original dose record')
 
 
-def _first_choice(fnode, choices):
+def _first_choice(fnode, choices, globals_=None, funcs=None):
     """Which of the constant `choices` wins when every look-up succeeds: structured run of the statements that bind a local
     from `...[<choice>]...` (nested try/except, a for loop over the choices with or without break, an if/elif chain)."""
     class Done(Exception):
@@ -262,7 +262,24 @@ def _first_choice(fnode, choices):
 
     def run(stmts, env, in_loop=False):
         for s_ in stmts:
-            if isinstance(s_, ast.Assign) and len(s_.targets) == 1 and isinstance(s_.targets[0], ast.Name):
+            if isinstance(s_, ast.Assign) and len(s_.targets) == 1 and isinstance(s_.targets[0], ast.Name) \
+                    and isinstance(s_.value, ast.Call) and funcs and dict.get(funcs, dotted(s_.value.func) or '') is not None:
+                # the look-up lives in a helper of the module: run it with the arguments bound
+                g_ = dict.get(funcs, dotted(s_.value.func))
+                env2 = {}
+                for p_, a_ in zip(g_.params, s_.value.args):
+                    if isinstance(a_, ast.Name) and globals_ and isinstance(globals_.get(a_.id), (ast.Tuple, ast.List)):
+                        env2[p_] = [e.value for e in globals_[a_.id].elts if isinstance(e, ast.Constant)]
+                    elif isinstance(a_, (ast.Tuple, ast.List)) and all(isinstance(e, ast.Constant) for e in a_.elts):
+                        env2[p_] = [e.value for e in a_.elts]
+                saved = dict(result)
+                result.pop('<return>', None)
+                run(g_.node.body, env2)
+                ret = result.get('<return>')
+                result.clear()
+                result.update(saved)
+                result[s_.targets[0].id] = ret if ret is not None else value_of(s_.value, env)
+            elif isinstance(s_, ast.Assign) and len(s_.targets) == 1 and isinstance(s_.targets[0], ast.Name):
                 result[s_.targets[0].id] = value_of(s_.value, env)
             elif isinstance(s_, ast.Try):
                 r = run(s_.body, env, in_loop)       # every look-up succeeds: handlers not taken
@@ -283,10 +300,13 @@ def _first_choice(fnode, choices):
                         return r
                 if not broke:
                     run(s_.orelse, env, in_loop)
-            elif isinstance(s_, ast.For) and isinstance(s_.iter, ast.Name) and s_.iter.id in env \
-                    and isinstance(env[s_.iter.id], (list, tuple)) and isinstance(s_.target, ast.Name):
+            elif isinstance(s_, ast.For) and isinstance(s_.iter, ast.Name) and isinstance(s_.target, ast.Name) and (
+                    (s_.iter.id in env and isinstance(env[s_.iter.id], (list, tuple)))
+                    or (globals_ and isinstance(globals_.get(s_.iter.id), (ast.Tuple, ast.List))
+                        and all(isinstance(e, ast.Constant) for e in globals_[s_.iter.id].elts))):
+                seq_ = env[s_.iter.id] if s_.iter.id in env else [e.value for e in globals_[s_.iter.id].elts]
                 broke = False
-                for v in env[s_.iter.id]:
+                for v in seq_:
                     r = run(s_.body, dict(env, **{s_.target.id: v}), True)
                     if r == 'break':
                         broke = True
@@ -305,6 +325,8 @@ def _first_choice(fnode, choices):
             elif isinstance(s_, ast.Continue):
                 return None
             elif isinstance(s_, ast.Return):
+                if s_.value is not None and '<return>' not in result:
+                    result['<return>'] = value_of(s_.value, env)
                 return 'return'
         return None
     env0 = {}
@@ -329,7 +351,7 @@ def run_q9_q10(chk, repo, dm):
             prefix.append(s_)
             if any(isinstance(c, ast.Constant) and c.value == 'dose' for c in ast.walk(s_)):
                 break
-        res = _first_choice(ast.Module(body=prefix, type_ignores=[]), ('mdv', 'event', 'dose'))
+        res = _first_choice(ast.Module(body=prefix, type_ignores=[]), ('mdv', 'event', 'dose'), dm.globals_, dm.functions)
         cands = {k: v for k, v in res.items() if any(f"'{c}'" in v for c in ('mdv', 'event', 'dose'))}
         if not cands:
             continue
